@@ -25,6 +25,14 @@ type c09Case struct {
 	How  string   `json:"how,omitempty"`
 }
 
+func reverseBytes(b []byte) []byte {
+	out := make([]byte, len(b))
+	for i := range b {
+		out[len(b)-1-i] = b[i]
+	}
+	return out
+}
+
 func judgeC09(rec *stats.Rec, c c09Case) (string, string) {
 	c1, ok1 := gen.ParseCert(c.DER)
 	c2, ok2 := gen.ParseCert(c.DER2)
@@ -123,8 +131,104 @@ func algPool() []*dt.Node {
 	return algIDs
 }
 
+// lookAlikeIssuers: names that a comparison by rendering, by attribute list or by normalised value may take for the
+// subject although the encoded issuer differs from the encoded subject - string types swapped, all attributes in one
+// multi-valued RDN, the last two RDNs merged, upper case, a trailing blank, RDNs reversed.
+func lookAlikeIssuers(subject *dt.Node) []*dt.Node {
+	var out []*dt.Node
+	atvs := func(n *dt.Node) []*dt.Node {
+		var l []*dt.Node
+		for _, rdn := range n.Children {
+			l = append(l, rdn.Children...)
+		}
+		return l
+	}
+	edit := func(f func(val *dt.Node)) *dt.Node {
+		c := subject.Clone()
+		for _, a := range atvs(c) {
+			if len(a.Children) == 2 {
+				f(a.Children[1])
+			}
+		}
+		return c
+	}
+	out = append(out, edit(func(v *dt.Node) {
+		switch {
+		case v.Class == 0 && v.Tag == 19:
+			v.Tag = 12
+		case v.Class == 0 && v.Tag == 12 && isIA5(string(v.Content)):
+			v.Tag = 19
+		}
+	}))
+	out = append(out, edit(func(v *dt.Node) { v.Content = bytes.ToUpper(v.Content) }))
+	out = append(out, edit(func(v *dt.Node) { v.Content = append(append([]byte{}, v.Content...), ' ') }))
+	if l := atvs(subject); len(l) >= 2 {
+		var cl []*dt.Node
+		for _, a := range l {
+			cl = append(cl, a.Clone())
+		}
+		out = append(out, dt.Seq(dt.Set(cl...)))
+		m := subject.Clone()
+		n := len(m.Children)
+		if n >= 2 {
+			m.Children[n-2].Children = append(m.Children[n-2].Children, m.Children[n-1].Children...)
+			m.Children = m.Children[:n-1]
+			out = append(out, m)
+			r := subject.Clone()
+			for i, j := 0, len(r.Children)-1; i < j; i, j = i+1, j-1 {
+				r.Children[i], r.Children[j] = r.Children[j], r.Children[i]
+			}
+			out = append(out, r)
+		}
+	}
+	return out
+}
+
 func TestC09(t *testing.T) {
 	rec := newRec(t, "C09")
+	// enumerated: certificates whose issuer is a look-alike of their subject (but not the same bytes: they are not
+	// self-issued) and whose signature really verifies under their own key - against the same certificate with the
+	// signature zeroed, one bit flipped, reversed. Whoever decides "self-signed" for himself, by comparing names his own
+	// way and then trying the signature, makes the verdict follow the signature bits.
+	{
+		co := gen.LoadCorpus()
+		k := 0
+		for ci, o := range co.Certs {
+			if ci%7 != 0 {
+				continue
+			}
+			v0, err := gen.ViewCert(o.DER)
+			if err != nil || len(v0.Subject().Children) == 0 {
+				continue
+			}
+			for li, iss := range lookAlikeIssuers(v0.Subject()) {
+				k++
+				if !stats.Mine(k) {
+					continue
+				}
+				v, _ := gen.ViewCert(o.DER)
+				if bytes.Equal(iss.Encode(), v.Subject().Encode()) {
+					continue
+				}
+				v.SetIssuer(iss)
+				v.SelfSign()
+				der := v.DER()
+				sig := v.SignatureBytes()
+				for vi, alt := range [][]byte{make([]byte, len(sig)), append(append([]byte{}, sig[:len(sig)-1]...), sig[len(sig)-1]^1), reverseBytes(sig)} {
+					v2, _ := gen.ViewCert(der)
+					v2.SetSignatureBytes(alt)
+					c := c09Case{DER: der, DER2: v2.DER(), Base: o.Name, How: fmt.Sprintf("look-alike issuer #%d, own-key signature vs variant %d", li, vi)}
+					rec.Eval()
+					rec.Class("lookalike_issuer_own_key")
+					if sig, msg := judgeC09(rec, c); msg != "" {
+						if rec.Report("c09", sig, msg, c) {
+							t.Fatalf("c09 %s %s: %s: %s", o.Name, c.How, sig, msg)
+						}
+					}
+				}
+			}
+		}
+	}
 	// enumerated: every (inner, outer) pair of AlgorithmIdentifier encodings of the corpus - equal or not,
 	// RSA-PSS parameters, ECDSA, EdDSA, legacy - on two non-self-issued certificates, each with three
 	// replacement signatures: a lint that compares or quotes the two identifiers must not reach into the
